@@ -35,7 +35,8 @@ Record lrec := {
   l_ino : N;
   l_nlink : N;
   l_target : bytes;                   (* readlink, "" unless symlink *)
-  l_xattrs : list (bytes * bytes)     (* llistxattr + lgetxattr, sorted by key *)
+  l_xattrs : list (bytes * bytes);    (* llistxattr + lgetxattr, sorted by key *)
+  l_dev : N                           (* st_dev: device holding the inode.  The code never reads it. *)
 }.
 
 (* a node = its lstat record + directory content (name, child); non-directories have no children *)
@@ -328,8 +329,10 @@ Definition spec_minor (d : N) : N := d mod 256 + 256 * ((d / 1048576) mod 4096).
 (* the least (in path order) path among the non-directories of [snap] with the inode of r *)
 Fixpoint least_path (best : bytes) (l : list bytes) : bytes :=
   match l with [] => best | p :: r => least_path (if path_ltb p best then p else best) r end.
+(* sharing an inode = same device AND same inode number *)
 Definition link_group (snap : list (bytes * lrec)) (r : lrec) : list bytes :=
-  map fst (filter (fun e => negb (raw_is_dir (snd e)) && N.eqb (l_ino (snd e)) (l_ino r)) snap).
+  map fst (filter (fun e => negb (raw_is_dir (snd e)) && N.eqb (l_ino (snd e)) (l_ino r)
+                            && N.eqb (l_dev (snd e)) (l_dev r)) snap).
 
 (* expected Linkname: readlink for symlinks; for other non-directories with nlink > 1 the first
    path of the inode (within the walked set) unless this entry is the first; "" otherwise *)
@@ -432,6 +435,14 @@ Definition ino_consistent (t : tree) : Prop :=
     tree_at t cs1 r1 -> tree_at t cs2 r2 -> cs1 <> cs2 ->
     is_dir r1 = false -> is_dir r2 = false -> l_ino r1 = l_ino r2 ->
     N.ltb 1 (l_nlink r1) = true.
+
+(* inode numbers identify inodes below the walked root: non-directories with the same st_ino are on
+   the same device.  True when the tree lies on one filesystem; FALSE in general across mount
+   points (st_ino is unique per device only) — see walk_hardlinks_cross_device_refuted. *)
+Definition one_fs (t : tree) : Prop :=
+  forall cs1 r1 cs2 r2,
+    tree_at t cs1 r1 -> tree_at t cs2 r2 ->
+    is_dir r1 = false -> is_dir r2 = false -> l_ino r1 = l_ino r2 -> l_dev r1 = l_dev r2.
 
 Definition path_lt (p q : bytes) : Prop := compare_path p q = Lt.
 
